@@ -635,31 +635,35 @@ void Builder::Cleanup() {
 
     for (vector<Edge*>::iterator e = active_edges.begin();
          e != active_edges.end(); ++e) {
-      string depfile = (*e)->GetUnescapedDepfile();
-      for (vector<Node*>::iterator o = (*e)->outputs_.begin();
-           o != (*e)->outputs_.end(); ++o) {
-        // Only delete this output if it was actually modified.  This is
-        // important for things like the generator where we don't want to
-        // delete the manifest file if we can avoid it.  But if the rule
-        // uses a depfile, always delete.  (Consider the case where we
-        // need to rebuild an output because of a modified header file
-        // mentioned in a depfile, and the command touches its depfile
-        // but is interrupted before it touches its output file.)
-        string err;
-        TimeStamp new_mtime = disk_interface_->Stat((*o)->path(), &err);
-        if (new_mtime == -1)  // Log and ignore Stat() errors.
-          status_->Error("%s", err.c_str());
-        if (!depfile.empty() || (*o)->mtime() != new_mtime)
-          disk_interface_->RemoveFile((*o)->path());
-      }
-      if (!depfile.empty())
-        disk_interface_->RemoveFile(depfile);
+      CleanupEdge(*e);
     }
   }
 
   string err;
   if (disk_interface_->Stat(lock_file_path_, &err) > 0)
     disk_interface_->RemoveFile(lock_file_path_);
+}
+
+void Builder::CleanupEdge(Edge* edge) {
+  string depfile = edge->GetUnescapedDepfile();
+  for (vector<Node*>::iterator o = edge->outputs_.begin();
+       o != edge->outputs_.end(); ++o) {
+    // Only delete this output if it was actually modified.  This is
+    // important for things like the generator where we don't want to
+    // delete the manifest file if we can avoid it.  But if the rule
+    // uses a depfile, always delete.  (Consider the case where we
+    // need to rebuild an output because of a modified header file
+    // mentioned in a depfile, and the command touches its depfile
+    // but is interrupted before it touches its output file.)
+    string err;
+    TimeStamp new_mtime = disk_interface_->Stat((*o)->path(), &err);
+    if (new_mtime == -1)  // Log and ignore Stat() errors.
+      status_->Error("%s", err.c_str());
+    if (!depfile.empty() || (*o)->mtime() != new_mtime)
+      disk_interface_->RemoveFile((*o)->path());
+  }
+  if (!depfile.empty())
+    disk_interface_->RemoveFile(depfile);
 }
 
 Node* Builder::AddTarget(const string& name, string* err) {
@@ -787,6 +791,16 @@ ExitStatus Builder::Build(string* err) {
       }
 
       if (result.interrupted() || result.exit_status() == ExitInterrupted) {
+        if (result.command_completed()) {
+          // The command itself was killed by the signal.  It has already been
+          // reaped, so the command runner does not track its edge any more:
+          // return its job slot and clean up its outputs like those of the
+          // commands that are still running.
+          Edge* edge = result.GetCommandCompleted().edge;
+          if (jobserver_.get())
+            jobserver_->Release(std::move(edge->job_slot_));
+          CleanupEdge(edge);
+        }
         Cleanup();
         status_->BuildFinished();
         *err = "interrupted by user";
